@@ -85,7 +85,13 @@ pub struct Found {
     pub scenario: Value,
 }
 
-pub const TK_EXE: &str = "/verif/tk/target/release/hvtk";
+pub const TK_EXE_DEFAULT: &str = "/verif/tk/target/release/hvtk";
+
+/// The tokio-twin build of this harness (HV_TK_EXE overrides the path, used to run a frozen
+/// copy of both binaries while the sources are being edited).
+pub fn tk_exe() -> String {
+    std::env::var("HV_TK_EXE").unwrap_or_else(|_| TK_EXE_DEFAULT.to_string())
+}
 
 /// Properties that also run on the tokio twin (a separate build of the harness).
 pub fn twin_of(id: &str) -> Option<String> {
@@ -100,7 +106,7 @@ pub fn twin_of(id: &str) -> Option<String> {
 
 fn exe_for(id: &str) -> String {
     if id.ends_with('T') && !cfg!(feature = "tk") {
-        TK_EXE.to_string()
+        tk_exe()
     } else {
         self_exe()
     }
@@ -108,7 +114,7 @@ fn exe_for(id: &str) -> String {
 
 /// `runs(tier)` of a twin check, asked from the twin binary.
 fn twin_runs(wid: &str, tier: Tier) -> Option<u64> {
-    let out = Command::new(TK_EXE).arg("list").output().ok()?;
+    let out = Command::new(tk_exe()).arg("list").output().ok()?;
     let text = String::from_utf8_lossy(&out.stdout).to_string();
     for l in text.lines() {
         let mut it = l.split_whitespace();
@@ -287,7 +293,7 @@ pub fn check(id: &str, tier: Tier, seed: u64, jobs: usize, max_runs: Option<u64>
     if let Some(t) = twin_of(id) {
         match twin_runs(&t, tier) {
             Some(n) => phases.push((t, max_runs.map(|m| m.min(n)).unwrap_or(n))),
-            None => errors.lock().unwrap().push(format!("the tokio twin binary {} is missing or does not list {}", TK_EXE, t)),
+            None => errors.lock().unwrap().push(format!("the tokio twin binary {} is missing or does not list {}", tk_exe(), t)),
         }
     }
     for (wid, total) in phases {
@@ -586,10 +592,10 @@ pub fn replay(path: &str) -> i32 {
     let wid = v["engine_id"].as_str().unwrap_or(id).to_string();
     if wid.ends_with('T') && !cfg!(feature = "tk") {
         // a tokio-twin scenario: the twin binary replays it
-        return match Command::new(TK_EXE).args(["replay", path]).status() {
+        return match Command::new(tk_exe()).args(["replay", path]).status() {
             Ok(s) => s.code().unwrap_or(2),
             Err(e) => {
-                eprintln!("hv: cannot run {}: {}", TK_EXE, e);
+                eprintln!("hv: cannot run {}: {}", tk_exe(), e);
                 2
             }
         };
